@@ -184,7 +184,7 @@ SECTIONS = {
 
 
 def _convert(src_style, dst_style, carry_original):
-    def body(c0, c1):
+    def body(c0, c1, indent_level, wrapped):
         import cdd.docstring.emit
         import cdd.docstring.utils.parse_utils as pu
         from cdd.shared.docstring_parsers import parse_docstring
@@ -195,6 +195,8 @@ def _convert(src_style, dst_style, carry_original):
         if word.strip() != word or "\n" in word or "\r" in word:
             return ""
         lines = [HEAD[0].replace("%s", word), HEAD[1], HEAD[2], HEAD[3].replace("%s", word)]
+        if wrapped:  # the summary paragraph itself is wrapped over two lines
+            lines = [lines[0], "which continues on a second line."] + lines[1:]
         doc = "\n".join(lines) + "\n\n" + SECTIONS[src_style]
         with shim(pu, **ADHOC_SHIMS):
             try:
@@ -204,7 +206,7 @@ def _convert(src_style, dst_style, carry_original):
             if carry_original:
                 ir["_internal"] = {"original_doc_str": doc}
             try:
-                out = cdd.docstring.emit.docstring(ir, docstring_format=dst_style, word_wrap=False)
+                out = cdd.docstring.emit.docstring(ir, docstring_format=dst_style, word_wrap=False, indent_level=indent_level)
             except Exception as e:
                 return "conversion raised %s: %s" % (type(e).__name__, e)
         at = 0
@@ -226,17 +228,36 @@ def _convert(src_style, dst_style, carry_original):
     return body
 
 
+def _convert_fixed(src_style, dst_style, indent_level, wrapped):
+    inner = _convert(src_style, dst_style, True)
+
+    def body(c0, c1):
+        return inner(c0, c1, indent_level, wrapped)
+
+    return body
+
+
+_P4_FUNCS = ["cdd.shared.docstring_parsers.parse_docstring", "cdd.docstring.emit.docstring", "cdd.shared.docstring_utils.parse_docstring_into_header_args_footer",
+             "cdd.shared.docstring_utils.header_args_footer_to_str"]
 for _src in SECTIONS:
     for _dst in SECTIONS:
         if _src == _dst:
             continue
-        for _carry in (True, False):
-            ob("C15", "P4.convert.%s_to_%s.%s" % (_src, _dst, "orig" if _carry else "noorig"), {"c0": R(33, 126), "c1": R(33, 126)}, pre="c0 != 47 and c1 != 47",
-               tier="quick" if (_carry and _src == "rest") or (not _carry and _dst == "rest") else "thorough", T=400,
-               funcs=["cdd.shared.docstring_parsers.parse_docstring", "cdd.docstring.emit.docstring", "cdd.shared.docstring_utils.parse_docstring_into_header_args_footer",
-                      "cdd.shared.docstring_utils.header_args_footer_to_str"],
-               bound="%s docstring with a 4-line header containing ANY 2 printable non-blank characters (twice), converted to %s %s the original docstring carried along: "
-                     "every header line present, in order; no header prose in a typ/default" % (_src, _dst, "with" if _carry else "without"))(_convert(_src, _dst, _carry))
+        _q = _src == "rest"
+        # without the original docstring the emitter works from the IR only: indentation and header shape stay solver-chosen
+        ob("C15", "P4.convert.%s_to_%s.noorig" % (_src, _dst), {"c0": R(33, 126), "c1": R(33, 126), "indent_level": R(0, 2), "wrapped": BOOL}, pre="c0 != 47 and c1 != 47",
+           tier="quick" if _dst == "rest" else "thorough", T=900, funcs=_P4_FUNCS,
+           bound="%s docstring with a 4-line header (or 5-line: summary paragraph wrapped over two lines) containing ANY 2 printable non-blank characters (twice), "
+                 "converted to %s at indent_level 0..2 without the original docstring carried along: "
+                 "every header line present, in order; no header prose in a typ/default" % (_src, _dst))(_convert(_src, _dst, False))
+        # with the original docstring the splitter runs on the symbolic text: one obligation per (indent_level, header shape)
+        for _il in (0, 1, 2):
+            for _wr in (False, True):
+                ob("C15", "P4.convert.%s_to_%s.orig.i%d%s" % (_src, _dst, _il, "w" if _wr else ""), {"c0": R(33, 126), "c1": R(33, 126)}, pre="c0 != 47 and c1 != 47",
+                   tier="quick" if _q and (_il, _wr) in ((0, False), (1, True), (2, False)) else "thorough", T=400, funcs=_P4_FUNCS,
+                   bound="%s docstring with a %s header containing ANY 2 printable non-blank characters (twice), converted to %s at indent_level %d with the original "
+                         "docstring carried along: every header line present, in order; no header prose in a typ/default" % (
+                             _src, "5-line (summary paragraph wrapped over two lines)" if _wr else "4-line", _dst, _il))(_convert_fixed(_src, _dst, _il, _wr))
 
 
 # --- P5: the header part IS the header: section titles are recognised at every indentation ------------------------------------------------
